@@ -421,10 +421,18 @@ var desugarSpecs = []desugarSpec{
 		if ok && n == 1 {
 			return []string{"< {(V.major+1)}.0.0"}, ""
 		}
+		two, three := "< {(V.major+1)}.0.0", "< {V.major}.{(V.minor+1)}.0"
 		if _, known := l.zero(`Count(V.original,".")`); !known {
-			return nil, "the arity of the base is not examined"
+			// the arity is not examined in this world: the expansion serves two- and three-component bases
+			// alike and is wrong for one of them; report it against the arity it is wrong for
+			for _, c := range l.cons {
+				if c == three {
+					return []string{two}, ""
+				}
+			}
+			return []string{three}, ""
 		}
-		return []string{"< {V.major}.{(V.minor+1)}.0"}, ""
+		return []string{three}, ""
 	}, baseLower},
 }
 
@@ -485,8 +493,17 @@ func ruleDesugar(p *Prog, r *Report) {
 			}
 		}
 		if len(pairBad) > 0 {
+			// one finding per operator, so that a recorded finding pins that operator only
 			sort.Strings(pairBad)
-			r.Bad("R-PAIR-INTERVAL", fmt.Sprintf("%s: %s expands to one lower and one upper bound", sp.eco, sp.fn), p.FnPos(fn), pairBad[0])
+			seenOp := map[string]bool{}
+			for _, pb := range pairBad {
+				op, _, _ := strings.Cut(pb, "V.*")
+				if seenOp[op] {
+					continue
+				}
+				seenOp[op] = true
+				r.Bad("R-PAIR-INTERVAL", fmt.Sprintf("%s: %s expands to one lower and one upper bound :: %sV.*", sp.eco, sp.fn, op), p.FnPos(fn), pb)
+			}
 		}
 		switch {
 		case len(bad) > 0:
